@@ -180,7 +180,12 @@ Definition step (a : A) (o : top) : A * result :=
       (a', if e =? 0 then RU else RErr e)
   | OSetLenRe refl n eff k => let '(a', e) := o_setlen_re O a n eff k in (a', eres refl e)
   | OGoTrunc k => (o_gotrunc O a k, RU)
-  | ONullProto => (o_with_proto O a [], RU)
+  | ONullProto =>
+      (* OrdinarySetPrototypeOf: a non-extensible object refuses a different prototype (TypeError from setPrototypeOf) *)
+      match o_dump O a with
+      | D _ _ false _ _ => (a, RErr 1)
+      | _ => (o_with_proto O a [], RU)
+      end
   end.
 
 Definition dump_eqb_dec (x y : dump) : bool :=
